@@ -40,10 +40,19 @@ type Ctx struct {
 	Obs   []*Obligation
 	Rules map[string]*ruleInfo // key prop/rule
 	order []string
+	Only  map[string]bool // when set, only these rule names are evaluated (used when one property borrows another's rules)
+	suppressed map[string]bool
 }
 
 func (c *Ctx) rule(prop, rule, text string, floor int) *ruleInfo {
 	k := prop + "/" + rule
+	if c.Only != nil && !c.Only[rule] {
+		if c.suppressed == nil {
+			c.suppressed = map[string]bool{}
+		}
+		c.suppressed[k] = true
+		return &ruleInfo{}
+	}
 	if r, ok := c.Rules[k]; ok {
 		return r
 	}
@@ -57,6 +66,9 @@ func (c *Ctx) rule(prop, rule, text string, floor int) *ruleInfo {
 }
 
 func (c *Ctx) add(prop, rule, key, verdict, pos, msg string) {
+	if c.suppressed[prop+"/"+rule] || (c.Only != nil && !c.Only[rule]) {
+		return
+	}
 	if r, ok := c.Rules[prop+"/"+rule]; ok {
 		r.Found++
 	} else {
